@@ -89,7 +89,14 @@ func run(c *core.Ctx) {
 		strings.Replace(base, `"ver":1`, `"ver":2`, 1), strings.Replace(base, `"transID":"T",`, ``, 1),
 		strings.Replace(base, `"touchPolicy":1`, `"touchPolicy":"1"`, 1), strings.Replace(base, `"isNonce":false`, `"isNonce":true,"isFirefighter":true`, 1),
 		strings.Replace(base, `"transID":"T"`, `"transID":"q\"<>&é😀"`, 1), strings.Replace(base, `"touchPolicy":1`, `"TOUCHPOLICY":3,"touchPolicy":1`, 1),
-		strings.Replace(base, `"touchPolicy":1`, `"touchPolicy":1,"TOUCHPOLICY":3`, 1), base[:len(base)-1]} {
+		strings.Replace(base, `"touchPolicy":1`, `"touchPolicy":1,"TOUCHPOLICY":3`, 1), base[:len(base)-1],
+		// a member that is present with the value null (what the encoder writes for a nil principal list)
+		strings.Replace(base, `"prins":["a"]`, `"prins":null`, 1), strings.Replace(base, `"prins":["a"]`, `"prins":[]`, 1),
+		strings.Replace(base, `"reqHost":"h"`, `"reqHost":null`, 1), strings.Replace(base, `"transID":"T"`, `"transID":null`, 1),
+		strings.Replace(base, `"isHWKey":false`, `"isHWKey":null`, 1), strings.Replace(base, `"touchPolicy":1`, `"touchPolicy":null`, 1),
+		strings.Replace(base, `"usage":0`, `"usage":null`, 1), strings.Replace(base, `"ver":1`, `"ver":null`, 1),
+		strings.Replace(strings.Replace(base, `"prins":["a"]`, `"prins":null`, 1), `"isHWKey":false`, `"isHWKey":true`, 1),
+		strings.Replace(strings.Replace(base, `"prins":["a"]`, `"prins":null`, 1), `"isNonce":false`, `"isNonce":true`, 1)} {
 		for _, co := range coStates {
 			emitType("near-miss", &ssh.Certificate{KeyId: t, Permissions: ssh.Permissions{CriticalOptions: co.opts}}, co)
 		}
@@ -107,6 +114,12 @@ func run(c *core.Ctx) {
 			k.IsHeadless, k.TouchPolicy = true, 1
 		case 3:
 			k.IsHWKey = true
+		}
+		switch r.Intn(6) {
+		case 0:
+			k.Principals = nil
+		case 1:
+			k.Principals = []string{}
 		}
 		text, err := k.Marshal()
 		if err != nil {
